@@ -70,6 +70,8 @@ class Registry:
         self.alternatives = {}   # (file, func) -> contracts chosen at a call site when their `applies` says so
 
     def add(self, c, verify=True, callable_=True):
+        if getattr(self, 'verify_override', None) is not None:
+            verify = verify and self.verify_override
         if callable_:
             self.contracts[c.key] = c
         if verify and not c.trusted and not c.inline:
